@@ -228,6 +228,8 @@ def gen_union(S, uname, rng, depth, maxdepth, p_present):
     u = [x for x in S['unions'] if x['name'] == uname][0]
     if rng.random() < 0.2: return (0, None)
     code = rng.randint(1, len(u['members']))
+    if u.get('first_new', len(u['members'])) < len(u['members']) and rng.random() < 0.35:
+        code = rng.randint(u['first_new'] + 1, len(u['members']))       # a kind the older schema version does not know
     k, v = u['members'][code - 1]
     if k == 't':
         if depth >= maxdepth: return (0, None)
